@@ -5,7 +5,7 @@
    that should receive Model.ml / Model.mli. *)
 Require Import ExtrOcamlBasic.
 From RV Require Import model.Base model.Clock model.Ledger model.Registry model.Chain model.Sync
-     model.Pool model.Json model.Sha256 model.Wire model.Neighborhood model.Wallet model.Views.
+     model.Pool model.Json model.Sha256 model.Wire model.Neighborhood model.Wallet model.Views model.WireDec.
 
 Extraction Language OCaml.
 Set Extraction Optimize.
@@ -21,4 +21,5 @@ Extraction "Model.ml"
              gen_id_sha block_hash_sha input_msg sha256 hex_of_bytes bytes_of_string
   (* neighborhood *) network_id add_targets incentive known reachable outbounds_count select_outbounds fanout
                      admissible_outbounds sync_round
-  (* access node *) find_closest tx_info wallet_amount progress_of.
+  (* access node *) find_closest tx_info wallet_amount progress_of
+  (* decoders *) unmarshal_tx unmarshal_block unmarshal_blocks unmarshal_request unmarshal_utxo unmarshal_output lower_hex.
